@@ -443,6 +443,9 @@ func CloneExpression(expr ast.Expression) ast.Expression {
 	case *ast.Index:
 		expr2 = ast.NewIndex(ClonePosition(e.Position), CloneExpression(e.Expr), CloneExpression(e.Index))
 
+	case *ast.Placeholder:
+		expr2 = ast.NewPlaceholder()
+
 	case *ast.Interface:
 		expr2 = ast.NewInterface(ClonePosition(e.Pos()))
 
